@@ -114,6 +114,31 @@ func runSession(t *testing.T, o SrvOpts, m *Model, reqs []Req, d Delivery) *Sess
 	return res
 }
 
+// runPipelined sends all requests back-to-back in one piece (as one TCP segment would carry them), then the
+// client's FIN, and returns everything the server wrote. Pipelining is legal on a stream: the answer must be the
+// concatenation of the answers given to the same requests sent one by one.
+func runPipelined(t *testing.T, o SrvOpts, reqs []Req, maxRead int) (stream []byte, closed bool) {
+	synctest.Test(t, func(t *testing.T) {
+		s := startSrv(o)
+		c := s.Dial(nil)
+		c.maxRead = maxRead
+		synctest.Wait()
+		var all []byte
+		for _, rq := range reqs {
+			all = append(all, rq.Encode()...)
+		}
+		tick()
+		c.Send(all)
+		synctest.Wait()
+		c.Fin()
+		synctest.Wait()
+		s.Shutdown()
+		stream = c.Take()
+		closed = c.ServerClosed()
+	})
+	return
+}
+
 func reqStrings(reqs []Req) []string {
 	var out []string
 	for _, r := range reqs {
